@@ -20,6 +20,8 @@ BODIES = {
     "cp1252": "<OFX><A>€ “q”</A><B><C>…</C></B></OFX>",
     "c1": "<OFX><A>a\u0085bé</A><B><C>x</C></B></OFX>",
     "utf8": "<OFX><A>漢字 € \U0001F4B0</A><B><C>é</C></B></OFX>",
+    # text whose single-byte encoding happens to be valid UTF-8: only the declared CHARSET says which it is
+    "looks-like-utf8": "<OFX><A>CAF\u00c3\u00a9 \u00c2\u00a35</A><B><C>\u00c3\u00bc</C></B></OFX>",
     "multiline": "<OFX>\r\n<A>x\r\n<B>\r\n<C>café\r\n</B>\r\n</OFX>",
 }
 SEPS = ["\r\n", "\n", "\r", ""]
@@ -245,7 +247,7 @@ def run(ctx):
         "evaluations": tally.counts.get("evaluations", 0),
         "distinct_nontrivial": tally.counts.get("evaluations", 0) - 1,
         "rule": "v1: full product uniform separator {CRLF,LF,CR,none} x blanks after colon {0,1,2} x leading blank lines {0,1,2} x gap "
-        "{blank line,none,LF,CRLF,CR,two blank lines} x COMPRESSION present/absent x every (charset, body) pair encodable (6 bodies: ascii, e-acute, "
+        "{blank line,none,LF,CRLF,CR,two blank lines} x COMPRESSION present/absent x every (charset, body) pair encodable (7 bodies: ascii, e-acute, text whose single-byte encoding is valid UTF-8, "
         "cp1252-only, C1 control, UTF-8 multi-byte, multi-line) with encoding/version/security rotating; all field-value combinations on the standard layout; "
         "separators deviating at <=2 of 8 boundaries from each uniform layout x gaps x 3 bodies; v2: 7 versions x quote x standalone x encoding attr x "
         "breaks x leading blank line x 4 bodies; each file is a distinct byte string (all but the library's own canonical layout non-trivial)",
